@@ -105,11 +105,11 @@ ROUND5 = {
     "C03": "; on every state a replacement whose evaluation fails: whatever tasks the manager then holds, its indices follow from them and verify() passes",
     "C06": "; the manager's default label '_' and the container refs themselves; the second copy of every path is built by another manager over containers in which every path resolves; expression copies built from fresh literal objects",
     "C07": "; names that match another entry when read as a case-insensitive regular expression; a 33-row table with repr(); tables derived (t*2, t+t, copy, reversed) after lookups resolve against their own index column; show(rows=...) with the recorded known finding show-rows-labels",
-    "C08": "; a column with nan entries in value ranges; select ; mutate through the table API ; select again on one table object",
+    "C08": "; rows.mask for all selector pairs; a column with nan entries in value ranges; select ; mutate through the table API ; select again on one table object",
     "C09": "; failing solves that never travel (started on / within 1e-12 of the least-squares point of an inconsistent system; unit, huge and small weights)",
     "C10": "; step ; a target disabled ; Broyden step, judged on linear problems against the same problem in which the target was never active",
     "C11": "; one destination manager used twice (rebound copy, then plain copy / load); int keys beyond 64 bits; an element and the container holding it both defined x destination pre-definitions x overwrite",
-    "C12": "; the same pickle loaded a second time (the second copy gets an assignment of its own); gen_fun in the alphabets; sibling chains to depth 4/5 with direct agreement of copy and original also where the model leaves the order open",
+    "C12": "; a manager pickled in one interpreter and restored in others under other hash seeds; the default container used attribute-style; the same pickle loaded a second time (the second copy gets an assignment of its own); gen_fun in the alphabets; sibling chains to depth 4/5 with direct agreement of copy and original also where the model leaves the order open",
     "C13": "; builtins and math.floor in triggered expressions; the generated function called again with equal arguments after an argument location was changed by another route; definitions differing only in literals of equal hash",
     "C14": "; row selections with several selectors at once; Table.concatenate on tables whose index column is not called 'name'",
     "C16": "; singular values tiny / huge in absolute terms; solve ; knobs moved by hand ; solve; rescale_x mappings at points outside the limits",
